@@ -95,6 +95,10 @@ type Transport struct {
 	// handler returns (sequential explorers).  Otherwise it is the separate
 	// event thread "T.closeReq".
 	SyncCloseReq bool
+	// MutateURL makes Do rewrite the URL of the request it was handed after
+	// recording it (as a routing / gateway HTTPClient may do with the request
+	// that belongs to this one call): a later call must not see the rewrite.
+	MutateURL bool
 	// FailDo, if non-nil, makes Do fail with this error before any response
 	// (connection refused / closed without an answer).
 	FailDo error
@@ -332,6 +336,10 @@ func (t *Transport) Do(req *http.Request) (*http.Response, error) {
 	t.Exchanges = append(t.Exchanges, ex)
 	t.calls = append(t.calls, c)
 	t.mu.Unlock()
+	if t.MutateURL && req.URL != nil {
+		req.URL.Path += "/rewritten-by-the-http-client"
+		req.URL.Host = "rewritten.invalid"
+	}
 
 	// Client cancellation: server context is cancelled, reads fail, request
 	// body is closed (RoundTripper contract).
